@@ -170,6 +170,10 @@ def run(m):
     return {"violated": out != ["[]()", "[]()"], "observed": out, "witness": "nil-binding-shadows"}
 '''
 
+for _sfx in ("", "_async"):
+    call_node_contract("C27", _sfx, lambda: REPLAY)
+
+
 not_covered("C27", "Parameter.parse / parse_arguments (token level)", "signatures beyond 3 parameters / 4 positional / 3 keyword arguments (macro_args is verified per arity; each arity with arbitrary names and values)")
 
 bounded("C27", "bounded/C27.py")
